@@ -166,9 +166,49 @@ def c03s_run(tid, wcfg, cfgline, wait_units):
     return rec.lines
 
 
+def c03c_run(tid, wcfg, cfgline, ph, wait_units):
+    """C03, waiting for the peer's first KEEPALIVE: OPENs are exchanged at once (peer proposes `ph`), then the peer stays
+    silent in OpenConfirm for `wait_units` (None: until the agent gives up) and then sends KEEPALIVEs."""
+    w = World(wcfg)
+    rec = R.Recorder(w, tid, cfgline)
+    c = first_session(w, rec)
+    if c is None:
+        return rec.lines
+    o = rec.step({'k': 'msg', 'c': c, 'm': 'OPEN', 'h': ph}, c)
+    if o['st'] != 'OPENCONFIRM':
+        return rec.lines
+    H = min(wcfg['hold'], ph)
+    left = wait_units if wait_units is not None else (H + 30) * UNIT
+    guard = 0
+    while left > 0 and rec.pre['st'] == 'OPENCONFIRM' and guard < 5000:
+        guard += 1
+        du = due_units(w)
+        d = left if du is None else min(left, du)
+        if d > 0:
+            rec.step({'k': 'tick', 'c': 0, 'n': d}, 0)
+            left -= d
+        n = 0
+        while w.due_calls() and rec.pre['st'] == 'OPENCONFIRM' and n < 10:
+            rec.step({'k': 'firedue', 'c': 0}, 0)
+            n += 1
+        if d == 0 and not n:
+            break
+    if wait_units is not None and rec.pre['st'] == 'OPENCONFIRM' and rec.pre['trcs'] == 'open':
+        rec.step({'k': 'msg', 'c': c, 'm': 'KA'}, c)
+    return rec.lines
+
+
 def c03j_jobs(tier, seed):
     jobs = []
     n = 0
+    for hold in (90, 300, 3600, 65535):
+        for ph in (90, 300, 1000, 65535):
+            H = min(hold, ph)
+            for wait in (None, 230 * UNIT, 240 * UNIT - 1, 240 * UNIT, 240 * UNIT + 1, 250 * UNIT, (H - 1) * UNIT):
+                if wait is not None and wait >= H * UNIT:
+                    continue
+                wcfg = dict(tick=1.0 / UNIT, tnum=1, tden=UNIT, crt=20, idle=20, hold=hold, las=65001, ras=65002)
+                jobs.append(('c03c', wcfg, ph, wait))
     for hold in (0, 3, 90, 180, 239, 240, 241, 300, 3600, 65535):
         for wait in (None, 239 * UNIT, 240 * UNIT - 1, 240 * UNIT, 240 * UNIT + 1, 250 * UNIT, 300 * UNIT):
             wcfg = dict(tick=1.0 / UNIT, tnum=1, tden=UNIT, crt=20, idle=20, hold=hold, las=65001, ras=65002)
@@ -232,7 +272,12 @@ def c02r_run(tid, wcfg, cfgline, seed):
     rec = R.Recorder(w, tid, cfgline)
     rec.step({'k': 'boot', 'c': 0}, 0)
     n = rnd.choice([0, 1, 2, 3, 4, 5, 6, 7, 8, 9, 11, 12, 13, 16, 20])
-    kind = rnd.choice(['refused', 'refused', 'timeout', 'reset', 'badopen', 'mixed'])
+    kind = rnd.choice(['refused', 'refused', 'timeout', 'reset', 'badopen', 'mixed', 'notif', 'notif', 'notif'])
+    # (kind notif: the peer answers our OPEN - or its own OPEN exchange - with a NOTIFICATION of some code / subcode)
+    notif = rnd.choice([(6, sc) for sc in range(0, 12)] + [(2, 1), (2, 2), (2, 5), (2, 7), (1, 1), (3, 1), (4, 0), (5, 1), (7, 1), (9, 9)])
+    notif_after_open = rnd.random() < 0.5
+    if kind == 'notif':
+        n = max(n, 1)
     done = guard = 0
     while done < n and guard < 4000:
         guard += 1
@@ -260,6 +305,14 @@ def c02r_run(tid, wcfg, cfgline, seed):
                 rec.step({'k': 'connOk', 'c': c}, c)
                 rec.step({'k': 'connLost', 'c': c}, c)
                 done += 1
+            elif kd == 'notif':
+                o = rec.step({'k': 'connOk', 'c': c}, c)
+                if o['st'] == 'OPENSENT' and notif_after_open:
+                    o = rec.step({'k': 'msg', 'c': c, 'm': 'OPEN', 'h': 90}, c)
+                if o['st'] in ('OPENSENT', 'OPENCONFIRM'):
+                    d = wire.notification(notif[0], notif[1])
+                    rec.step({'k': 'data', 'c': c, 'hex': d.hex(), 'cls': 'NOTIF', 'm': 'notif%d.%d' % notif}, c, data=d, extra={'flen': len(d)})
+                done += 1
             else:
                 o = rec.step({'k': 'connOk', 'c': c}, c)
                 if o['st'] == 'OPENSENT':
@@ -282,10 +335,48 @@ def c02r_jobs(tier, seed):
     n = 0
     for wcfg in (dict(tick=10.0, crt=20, idle=20, hold=90, las=65001, ras=65002), dict(tick=10.0, crt=40, idle=20, hold=90, las=65001, ras=65002),
                  dict(tick=10.0, crt=30, idle=10, hold=90, las=65001, ras=65002), dict(tick=10.0, crt=20, idle=0, hold=30, las=65001, ras=65002)):
-        for _ in range(40 if tier == 'quick' else 1200):
+        for _ in range(70 if tier == 'quick' else 1500):
             jobs.append(('c02r', wcfg, seed * 1000003 + n))
             n += 1
     return jobs
+
+
+def c13u_run(tid, wcfg, cfgline, seed):
+    """C13 through the REST interface as operators use it: stops and starts in a row, the peer's address written in
+    different (equivalent) ways in the URL, requests repeated; every stop stops, every start starts."""
+    rnd = random.Random(seed)
+    w = World(wcfg)
+    rec = R.Recorder(w, tid, cfgline)
+    spell = [None, '10.0.0.2', '10.0.0.02', '010.0.0.2', '10.0.0.2.', '10.0.000.2']
+    c = first_session(w, rec)
+    for _ in range(rnd.randint(3, 8)):
+        # bring a session up when the peering is running
+        if c is not None and rec.pre['st'] == 'OPENSENT' and rnd.random() < 0.9:
+            o = rec.step({'k': 'msg', 'c': c, 'm': 'OPEN', 'h': 90}, c)
+            if o['st'] == 'OPENCONFIRM' and rnd.random() < 0.9:
+                rec.step({'k': 'msg', 'c': c, 'm': 'KA'}, c)
+        rec.step({'k': 'stop', 'c': 0, 'peer': rnd.choice(spell)}, 0)
+        if rnd.random() < 0.3:
+            rec.step({'k': 'stop', 'c': 0, 'peer': rnd.choice(spell)}, 0)
+        for i in [i for i in w.alive if W.connectors[i - 1].state == 'connected' and W.connectors[i - 1].transport.disconnecting]:
+            if rnd.random() < 0.7:
+                rec.step({'k': 'connLost', 'c': i}, i)
+        if rnd.random() < 0.4:
+            rec.step({'k': 'tick', 'c': 0}, 0)
+        rec.step({'k': 'start', 'c': 0, 'peer': rnd.choice(spell)}, 0)
+        pending = [i for i in w.alive if W.connectors[i - 1].state == 'connecting']
+        c = None
+        if pending:
+            for i in [i for i in w.alive if W.connectors[i - 1].state == 'connected']:
+                rec.step({'k': 'connLost', 'c': i}, i)
+            o = rec.step({'k': 'connOk', 'c': pending[0]}, pending[0])
+            c = pending[0] if o['st'] == 'OPENSENT' else None
+    return rec.lines
+
+
+def c13u_jobs(tier, seed):
+    wcfg = dict(tick=10.0, crt=20, idle=20, hold=90, las=65001, ras=65002)
+    return [('c13u', wcfg, seed * 1000003 + i) for i in range(60 if tier == 'quick' else 2000)]
 
 
 def c12md5_jobs(tier, seed):
@@ -323,6 +414,8 @@ def open_variants(ras):
         v.append(('good-nocaps', ras, None, 90, (), 4, True, 1, 0))
         v.append(('good-packed', ras, ras, 90, ('mp', 'rr', 'crr', 'err', 'gr', 'as4', 'unk'), 4, False, 1, 0))
         v.append(('good-addpath-unknown-family', ras, ras, 90, ('mp', 'as4', 'apx'), 4, True, 1, 0))
+        for ap in ('ap0', 'ap4', 'ap255', 'ap3'):
+            v.append(('good-addpath-' + ap, ras, ras, 90, ('mp', 'as4', ap), 4, True, 1, 0))
         v.append(('bad-as2', ras + 1 if ras < 65535 else ras - 1, None, 90, ('mp',), 4, True, 2, 2))
         v.append(('bad-as4-disagrees', ras, ras + 1, 90, ('mp', 'as4'), 4, True, 2, 2))
     else:
@@ -554,6 +647,22 @@ def fuzz_inputs(repo, tier, seed):
 
 
 PROBE = wire.simple_update(prefixes=((24, b'\x0a\x2a\x2a'), (8, b'\x0b')), asns=(65002, 64512), asn4=True, med=77)
+
+
+def _ls_update(sub_tlvs):
+    """an UPDATE with a BGP-LS attribute (29) holding an SRv6 End.X SID TLV (1106) with the given sub-TLV octets"""
+    endx = struct.pack('!HBBBB', 1, 0, 0, 0, 0) + bytes([0x20, 0x01, 0x0d, 0xb8] + [0] * 11 + [1]) + sub_tlvs
+    ls = struct.pack('!HH', 1106, len(endx)) + endx + struct.pack('!HH', 1095, 3) + b'\x00\x00\x0a'
+    return wire.update(attrs=wire.attr(0x40, 1, b'\x00') + wire.attr(0x40, 2, wire.as_path((65002,), True)) + wire.attr(0x40, 3, b'\x0a\x00\x00\x02') +
+                       wire.attr(0x80, 29, ls), nlri=wire.prefix4(24, b'\x0a\x2b\x2b'))
+
+
+# a second known-good message, of the kind whose decoders keep most state: link-state TLVs with sub-TLVs
+PROBE_LS = _ls_update(struct.pack('!HH', 1252, 4) + bytes([32, 16, 16, 0]))
+# ... and hostile relatives of it: the registered sub-TLV is cut short / nested
+HOSTILE_LS = [_ls_update(struct.pack('!HH', 1252, 2) + bytes([32, 16])), _ls_update(struct.pack('!HH', 1252, 0)),
+              _ls_update(struct.pack('!HH', 1252, 4) + bytes([32, 16, 16, 0]) + struct.pack('!HH', 1252, 1) + b'\x20')]
+PROBES = [PROBE, PROBE_LS]
 _REF = {}
 
 
@@ -564,9 +673,12 @@ def probe_reference(wcfg):
         for ev in [{'k': 'boot'}, {'k': 'connOk', 'c': 1}, {'k': 'msg', 'c': 1, 'm': 'OPEN', 'h': 90}, {'k': 'msg', 'c': 1, 'm': 'KA'}]:
             w.apply(ev)
         w.observe()
-        w.apply({'k': 'data', 'c': 1, 'hex': PROBE.hex()})
-        o = w.observe()
-        _REF[key] = [canon(p) for n, p in o['rep'] if n == 'update_received']
+        ref = []
+        for pb in PROBES:
+            w.apply({'k': 'data', 'c': 1, 'hex': pb.hex()})
+            o = w.observe()
+            ref.append([canon(p) for n, p in o['rep'] if n == 'update_received'])
+        _REF[key] = ref
     return _REF[key]
 
 
@@ -580,17 +692,26 @@ def c10_run(tid, wcfg, cfgline, state, cls, data):
     if state == 'ESTABLISHED':
         rec.step({'k': 'msg', 'c': 1, 'm': 'KA'}, 1)
     w.budget = BUDGET
-    o = rec.step({'k': 'data', 'c': 1, 'hex': data.hex(), 'cls': cls, 'm': cls}, 1, data=data, extra={'flen': len(data), 'fz': cls})
+    reps = 1
+    if cls == 'FUZZ_UPD_REP':        # the same hostile UPDATE many times on one connection (state a decoder may leave behind adds up)
+        cls, reps = 'FUZZ_UPD', 70
     alive = lambda x: x['st'] == 'ESTABLISHED' and W.connectors[0].state == 'connected' and not W.connectors[0].transport.disconnecting
+    for _ in range(reps):
+        o = rec.step({'k': 'data', 'c': 1, 'hex': data.hex(), 'cls': cls, 'm': cls}, 1, data=data, extra={'flen': len(data), 'fz': cls})
+        if not alive(o):
+            break
     if cls == 'FUZZ_UPD' and state == 'ESTABLISHED' and alive(o):
         # the same frame once more: it must be handled exactly like the first time
         first = ([n for n, p in o['rep']], [x['type'] for x in o['out']], o['st'])
         o = rec.step({'k': 'data', 'c': 1, 'hex': data.hex(), 'cls': cls, 'm': cls}, 1, data=data, extra={'flen': len(data), 'fz': cls})
         rec.lines[-1]['rptsame'] = first == ([n for n, p in o['rep']], [x['type'] for x in o['out']], o['st'])
     if cls != 'FUZZ_RAW' and alive(o):
-        o = rec.step({'k': 'data', 'c': 1, 'hex': PROBE.hex(), 'cls': 'PROBE', 'm': 'PROBE'}, 1, data=PROBE, extra={'flen': len(PROBE)})
-        got = [canon(p) for n, p in o['rep'] if n == 'update_received']
-        rec.lines[-1]['probeok'] = got == ref
+        for pb, want in zip(PROBES, ref):
+            o = rec.step({'k': 'data', 'c': 1, 'hex': pb.hex(), 'cls': 'PROBE', 'm': 'PROBE'}, 1, data=pb, extra={'flen': len(pb)})
+            got = [canon(p) for n, p in o['rep'] if n == 'update_received']
+            rec.lines[-1]['probeok'] = got == want
+            if not alive(o):
+                break
     w.budget = None
     return rec.lines
 
@@ -947,9 +1068,15 @@ def run_jobs(args):
             elif job[0] == 'c01q':
                 _, wcfg, state, nitems, wn = job
                 lines = c01q_run(tid, wcfg, cfgline_fn(wcfg), state, nitems, wn)
+            elif job[0] == 'c13u':
+                _, wcfg, sd = job
+                lines = c13u_run(tid, wcfg, cfgline_fn(wcfg), sd)
             elif job[0] == 'c02r':
                 _, wcfg, sd = job
                 lines = c02r_run(tid, wcfg, cfgline_fn(wcfg), sd)
+            elif job[0] == 'c03c':
+                _, wcfg, ph, wait = job
+                lines = c03c_run(tid, wcfg, cfgline_fn(wcfg), ph, wait)
             elif job[0] == 'c03s':
                 _, wcfg, wait = job
                 lines = c03s_run(tid, wcfg, cfgline_fn(wcfg), wait)
